@@ -353,6 +353,9 @@ fn cmd_dump_plan(args: &[String]) -> i32 {
 fn main() {
     env::install_panic_hook();
     let args: Vec<String> = std::env::args().skip(1).collect();
+    if let Some(f) = arg(&args, "--force-dispatch").and_then(|s| s.parse::<u8>().ok()) {
+        env::set_force_dispatch(f);
+    }
     let code = match args.first().map(|s| s.as_str()) {
         Some("run") => cmd_run(&args[1..]),
         Some("replay") => cmd_replay(&args[1..]),
